@@ -300,6 +300,7 @@ def case_moments(p: dict) -> dict:
 SIZES_QUICK = [(4, 3), (6, 5), (6, 7), (8, 11)]
 SIZES_THOROUGH = SIZES_QUICK + [(6, 13), (4, 15)]
 T0S = [1.0, 100.0]
+T0S_EXTREME = [1e-10, 1e-4, 1e4, 1e10]
 MASSES = ["zero", "const", "tanh"]
 
 
@@ -314,6 +315,15 @@ def moments_cases(tier: str) -> list[dict]:
                         continue  # quick: Chebyshev-input variants at N=11 for one configuration only (all at N<=7)
                     for w in WNAMES:
                         for a in range(2 * N - 2):  # a = 0 .. 2N-3
+                            out.append(dict(M=M, N=N, T0=T0, mass=mass, basis=basis, w=w, a=a))
+    # extreme momentum scales (the property quantifies over EVERY momentum scale: an absolute constant anywhere in the measure or the
+    # energy would bite in units where momenta are tiny or huge): the two smallest sizes, every mass profile, basis, weight and degree
+    for (M, N) in sizes[:2]:
+        for T0 in T0S_EXTREME:
+            for mass in MASSES:
+                for basis in ("CC", "TT"):
+                    for w in WNAMES:
+                        for a in range(2 * N - 2):
                             out.append(dict(M=M, N=N, T0=T0, mass=mass, basis=basis, w=w, a=a))
     # the same moments on a grid whose momentum scale was changed after construction (smallest size, every weight and degree)
     M0, N0 = sizes[0]
